@@ -840,22 +840,15 @@ where
         // only check surrogate here, and we will check the code pointer later when use
         // `codepoint_to_utf8`
         if (0xD800..0xDC00).contains(&point1) {
-            // parse the second utf8 code point of surrogate
-            let point2 = if let Some(asc) = self.read.next_n(6) {
-                if asc[0] != b'\\' || asc[1] != b'u' {
-                    if self.cfg.utf8_lossy {
-                        return Ok(0xFFFD);
-                    } else {
-                        // invalid surrogate
-                        return perr!(self, InvalidSurrogateUnicodeCodePoint);
-                    }
-                }
-                unsafe { hex_to_u32_nocheck(&*(asc.as_ptr().add(2) as *const _ as *const [u8; 4])) }
-            } else if self.cfg.utf8_lossy {
-                return Ok(0xFFFD);
-            } else {
+            // parse the second utf8 code point of surrogate, and only consume it when it is
+            // the low surrogate: in lossy mode whatever follows a lone surrogate is kept
+            let point2 = match self.read.peek_n(6) {
+                Some(asc) if asc[0] == b'\\' && asc[1] == b'u' => unsafe {
+                    hex_to_u32_nocheck(&*(asc.as_ptr().add(2) as *const _ as *const [u8; 4]))
+                },
+                _ if self.cfg.utf8_lossy => return Ok(0xFFFD),
                 // invalid surrogate
-                return perr!(self, InvalidSurrogateUnicodeCodePoint);
+                _ => return perr!(self, InvalidSurrogateUnicodeCodePoint),
             };
 
             /* calcute the real code point */
@@ -868,6 +861,7 @@ where
                     return perr!(self, InvalidSurrogateUnicodeCodePoint);
                 }
             }
+            self.read.eat(6);
 
             Ok((((point1 - 0xd800) << 10) | low_bit).wrapping_add(0x10000))
         } else if (0xDC00..0xE000).contains(&point1) {
